@@ -62,4 +62,6 @@ CASES = [
     ("t1-log-extra-logical-field", "twin", O, "                **t1.metrics,\n                \"ms\": t1_ms,\n", "                **t1.metrics,\n                \"ms\": t1_ms,\n                \"input_len\": len(input_text),\n", None),
     ("apply-metrics-ms-renamed-local", "twin", A, "    metrics = {\n        \"ms\": _now_ms() - started,\n", "    _elapsed = _now_ms() - started\n    metrics = {\n        \"ms\": _elapsed,\n", None),
     ("bm25-set-membership", "twin", Q, "        for t in q_terms:\n            f = tf.get(t, 0)\n", "        _qs = set(q_terms)\n        for t in q_terms:\n            if t not in _qs:\n                continue\n            f = tf.get(t, 0)\n", None),
+    ("t2-clock-ms-fallback-dropped", "mutant", "clematis/engine/stages/t2/core.py", "        now_str = _clock_from_ms(getattr(ctx, \"now_ms\", None))\n", "        now_str = None\n", "C01.CLOCK"),
+    ("t2-clock-ms-fallback-inline", "twin", "clematis/engine/stages/t2/core.py", "        now_str = _clock_from_ms(getattr(ctx, \"now_ms\", None))\n", "        _ms_clock = getattr(ctx, \"now_ms\", None)\n        now_str = _clock_from_ms(_ms_clock)\n", None),
 ]
